@@ -782,9 +782,44 @@ def gen_zonemd(ctx, rng):
         yield "zonemd", [7, origin, int(rel), nodes, halg, scheme]
 
 
+def gen_sweeps(ctx):
+    """complete small scopes (no randomness): every layout of a fixed name tree where each name is
+    absent / plain / a delegation (with or without DS), relativized and absolute; every single type
+    of the first windows; every one-octet key for both key-tag branches"""
+    ex = [b"example", b""]
+    tree = [[b"a"], [b"b", b"A"], [b"c", b"b", b"a"], [b"d"], [b"e", b"D"]] if ctx.tier == "thorough" else [[b"a"], [b"b", b"A"], [b"d"]]
+    states = [None, [1], [2, 1], [2, 43]]
+    n = 0
+
+    def layouts(i):
+        if i == len(tree):
+            yield []
+            return
+        for rest in layouts(i + 1):
+            for st in states:
+                yield ([[tree[i], st]] if st is not None else []) + rest
+
+    for lay in layouts(0):
+        for rel in (0, 1):
+            nodes = [[[] if rel else ex, [6, 2]]] + [[stem if rel else stem + ex, ts] for stem, ts in lay]
+            n += 1
+            yield "signzone", [8, ex, rel, nodes]
+    for t in range(0, 1024 if ctx.tier == "thorough" else 300):
+        n += 1
+        yield "bitmap", [6, [t]]
+    for b in range(256):
+        for alg in (1, 8):
+            n += 1
+            yield "keyid", [1, 256, 3, alg, bytes([b]), 0]
+    ctx.notes["exhaustive_subscopes"] = ("sign_zone: all %d-name layouts x {absent, plain, delegation, delegation+DS} x {relativized, absolute}; "
+                                         "from_rdtypes: every single type below %d; key_id: every one-octet key for algorithm 1 and 8 (%d cases)"
+                                         % (len(tree), 1024 if ctx.tier == "thorough" else 300, n))
+
+
 def cases(ctx):
     _ensure_gen(ctx)
     rng = ctx.rng
+    yield from gen_sweeps(ctx)
     yield from gen_keyid(ctx, rng)
     yield from gen_digestable(ctx, rng)
     yield from gen_rrsig(ctx, rng)
@@ -894,6 +929,7 @@ def impl(case):
     import dns.rdataset
     import dns.rdatatype
     import dns.rdtypes.util
+    import dns.rrset
     import dns.zone
     import dns.zonetypes
 
@@ -925,7 +961,18 @@ def impl(case):
                 rds.add(build_rdata(cls, ty, args), 300)
             if len(rds) != len(rdatas):
                 return Err(902, "generator produced rdatas the rdataset considers equal")
-            return dns.dnssec._make_rrsig_signature_data((N(owner), rds), rrsig, nl.oname(origin))
+            a = dns.dnssec._make_rrsig_signature_data((N(owner), rds), rrsig, nl.oname(origin))
+            # the same RRset given as an RRset object
+            rrset = dns.rrset.RRset(N(owner), cls, ty)
+            for rd in rds:
+                rrset.add(rd, 300)
+            try:
+                b = dns.dnssec._make_rrsig_signature_data(rrset, rrsig, nl.oname(origin))
+            except Exception as e2:  # noqa
+                b = e2
+            if a != b:
+                return Err(906, "signing data differs between the (name, rdataset) and the RRset form")
+            return a
         if op == 4:
             _, owner, flags, protocol, alg, key, dt = case
             k = dns.rdata.get_rdata_class(1, 48)(1, 48, flags, protocol, alg, bytes(key))
